@@ -275,6 +275,119 @@ def enrich_key(key):
         key["unit"] = UNITS[a[1] - 1]
 
 
+# --------------------------------------------------------------------------
+# (B) chained sessions: the library as a register machine (SessionTrace.tla)
+# --------------------------------------------------------------------------
+RES_TYPE = {}
+
+
+def res_type(op):
+    """register type an operation's Ok result is stored into (mirror of Ops.ResType; only used to drive sessions)"""
+    if not RES_TYPE:
+        groups = {
+            "D": ["D.try_from_ymd", "D.try_from_days", "D.add_days", "D.sub_days", "D.last_day_of_month", "D.trunc", "D.round"],
+            "TS": ["D.and_hms", "D.and_time", "D.add_time", "D.to_ts", "D.add_interval_ym", "D.sub_interval_ym", "D.add_interval_dt",
+                   "D.sub_interval_dt", "D.sub_time", "TS.new", "TS.try_from_usecs", "TS.add_interval_dt", "TS.sub_interval_dt",
+                   "TS.add_time", "TS.sub_time", "TS.add_interval_ym", "TS.sub_interval_ym", "TS.add_days", "TS.sub_days",
+                   "TS.last_day_of_month", "TS.trunc", "TS.round", "OD.to_ts", "OD.add_time", "OD.sub_time"],
+            "T": ["T.try_from_hms", "T.try_from_usecs", "T.add_interval_dt", "T.sub_interval_dt", "T.from_ts", "T.from_od",
+                  "T.from_dt", "OD.to_time"],
+            "YM": ["YM.try_from_ym", "YM.try_from_months", "YM.add_interval_ym", "YM.sub_interval_ym", "YM.neg", "YM.mul_f64", "YM.div_f64"],
+            "DT": ["D.sub_timestamp", "T.sub_time", "T.mul_f64", "T.div_f64", "TS.sub_date", "TS.sub_timestamp", "TS.oracle_sub_date",
+                   "DT.try_from_dhms", "DT.try_from_usecs", "DT.add_interval_dt", "DT.sub_interval_dt", "DT.sub_time", "DT.neg",
+                   "DT.from_time", "DT.mul_f64", "DT.div_f64", "OD.sub_timestamp"],
+            "OD": ["TS.oracle_add_days", "TS.oracle_sub_days", "OD.new", "OD.try_from_usecs", "OD.from_ts", "OD.add_interval_dt",
+                   "OD.sub_interval_dt", "OD.add_interval_ym", "OD.sub_interval_ym", "OD.add_days", "OD.sub_days",
+                   "OD.last_day_of_month", "OD.trunc", "OD.round"],
+        }
+        for ty, ops in groups.items():
+            for o in ops:
+                RES_TYPE[o] = ty
+    return RES_TYPE.get(op, "-")
+
+
+def sessions(v, tag, nsessions, steps, aspects):
+    """Drives random chained sessions on the real crate (values flow from call to
+    call through six registers) and validates each recorded session with
+    SessionTrace.tla."""
+    import pools
+    import random
+    import subprocess
+    exe = vlib.build_harness("release")
+    wd = vlib.workdir("%s_%s" % (v.prop, tag))
+    cfg = os.path.join(vlib.SPEC, "SessionTrace.cfg")
+    ops = [o for o in pools.SIG if not o.startswith("AG.") and not o.endswith("_at")]
+    regtypes = ("D", "T", "TS", "YM", "DT", "OD")
+    log("[%s] sessions %s: %d sessions x %d steps" % (v.prop, tag, nsessions, steps))
+
+    def one(k):
+        rnd = random.Random(v.seed * 1000 + k)
+        P = pools.Pools(v.seed * 1000 + k, 1)
+        regs = {"D": rnd.choice(P.dates), "T": rnd.choice(P.times), "TS": rnd.choice(P.ts), "YM": rnd.choice(P.ym),
+                "DT": rnd.choice(P.dt), "OD": rnd.choice(P.od)}
+        tf = os.path.join(wd, "s%d.ndjson" % k)
+        proc = subprocess.Popen([exe, "exec"], stdin=subprocess.PIPE, stdout=subprocess.PIPE, text=True, bufsize=1)
+        with open(tf, "w") as fh:
+            fh.write(json.dumps({"i": 1, "op": "S.init", "a": [regs[t] for t in regtypes], "r": [0, 0], "use": [], "tys": [], "put": "-"}) + "\n")
+            for i in range(2, steps + 2):
+                op = rnd.choice(ops)
+                tys = pools.SIG[op]
+                a, use = [], []
+                for pos, t in enumerate(tys):
+                    if t in regs and rnd.random() < 0.8:
+                        a.append(regs[t])
+                        use.append(pos + 1)
+                    else:
+                        a.append(rnd.choice(P.pool(t)))
+                proc.stdin.write(json.dumps({"op": op, "a": a}) + "\n")
+                proc.stdin.flush()
+                line = proc.stdout.readline()
+                if not line:
+                    raise ToolError("harness died in session %d at %s %r" % (k, op, a))
+                ev = json.loads(line)
+                put = res_type(op)
+                if not (ev["r"][0] == 0 and put in regs):
+                    put = "-"
+                else:
+                    regs[put] = ev["r"][1]
+                fh.write(json.dumps({"i": i, "op": op, "a": ev["a"], "r": ev["r"], "use": use, "tys": tys, "put": put}) + "\n")
+        proc.stdin.close()
+        proc.wait()
+        res = vlib.tlc("SessionTrace.tla", cfg, env={"TRACE": tf}, workers=1, xmx="3g", timeout=3000, metadir=os.path.join(wd, "m%d" % k))
+        acc = res.tagged("ACCEPTED")
+        if not acc or res.errors:
+            m_ = res.out.find("Error:")
+            raise ToolError("SessionTrace session %d not accepted by TLC (trace kept: %s):\n%s" % (k, tf, res.out[m_:m_ + 2500] if m_ >= 0 else res.out[-2500:]))
+        out = []
+        mism = res.tagged("MISMATCH")
+        if mism:
+            lines = open(tf).read().splitlines()
+            for mm in mism:
+                i, op, bad = mm[1], mm[2], mm[3]["#set"]
+                ev = json.loads(lines[i - 1])
+                for b in bad:
+                    if b in aspects:
+                        out.append(({"op": op, "aspect": b, "a": ev["a"], "session": k, "step": i}, {"observed": ev["r"]}))
+        sample = None
+        if k == 0:
+            with open(tf) as fh:
+                sample = [fh.readline().strip()[:200] for _ in range(3)]
+        os.remove(tf)
+        return res, steps + 1, out, sample
+
+    for res, n, out, sample in vlib.parallel(one, list(range(nsessions))):
+        v.add_tlc(res, "TRACE=<session.ndjson> tlc -workers 1 -config SessionTrace.cfg SessionTrace.tla")
+        v.cov["traces_validated_against_impl"] += 1
+        v.cov["evaluations"] += n
+        v.cov["distinct_nontrivial"] += n - 1
+        if sample:
+            v.sample({"session": sample})
+        for key, det in out:
+            enrich_key(key)
+            v.mismatch("SessionTrace:" + key["op"], key, det)
+    shutil.rmtree(wd, ignore_errors=True)
+
+
 # ==========================================================================
 # C01
 # ==========================================================================
@@ -400,6 +513,8 @@ def c02(v):
     P = pools.Pools(v.seed, scale_of(v))
     plan = pools.plan_for(sorted(pools.SIG), P, cap=1200 * scale_of(v))
     eventtrace(v, "pools", plan, {"range"})
+    # chained sessions: values produced by one call flow into the next; TypeOK after every step
+    sessions(v, "chain", 14 if v.tier == "quick" else 56, 2500 if v.tier == "quick" else 10000, {"range", "binding"})
 
 
 @prop("C08")
@@ -1212,6 +1327,66 @@ def c03(v):
                                         "a": ["".join(x) if isinstance(x, list) and x and isinstance(x[0], str) else x for x in args]},
                        {"observed": r})
     v.sample({"hostile_inputs": [[p[0], "".join(p[1][0])[:40] if isinstance(p[1][0], list) else p[1][0]] for p in plan[5000:5003]]})
+
+
+def selftest():
+    """Binding demonstration (DESIGN section 12): corrupt recorded traces in known ways and
+    require TLC to flag exactly the corrupted events; remove / swap day records and require
+    the walker-driven trace to be rejected or flagged."""
+    import copy
+    vlib.build_harness("release")
+    wd = vlib.workdir("selftest")
+    ok = True
+    # --- EventTrace: corrupted results
+    plan = [("D.add_days", [10957, 5]), ("TS.add_interval_dt", [[0, 0, 0], [1, 2, 3]]), ("T.add_interval_dt", [[86399, 999999], [0, 0, 1]]),
+            ("D.trunc", [10957, 5]), ("YM.neg", [17]), ("TS.format", [[13608, 47289, 123456], list("YYYY-MM-DD")])]
+    pf = os.path.join(wd, "p.ndjson")
+    with open(pf, "w") as fh:
+        for op, a in plan:
+            fh.write(json.dumps({"op": op, "a": a}) + "\n")
+    tf = os.path.join(wd, "t.ndjson")
+    vlib.vh(["events", "--out", tf, "--plan", pf])
+    evs = [json.loads(l) for l in open(tf)]
+    bad = copy.deepcopy(evs)
+    bad[0]["r"] = [0, bad[0]["r"][1] + 1]                    # off by one            -> result
+    bad[1]["r"] = [0, [2932897, 0, 0]]                        # out of range          -> range + result
+    bad[2]["r"] = [2, 0]                                      # a panic               -> panic
+    bad[3]["r"] = [1, 1]                                      # an error for a valid call -> result
+    bad[5]["r"][1][0] = "3"                                   # one character of the text -> result
+    with open(tf, "w") as fh:
+        for e in bad:
+            fh.write(json.dumps(e) + "\n")
+    res = vlib.tlc("EventTrace.tla", os.path.join(vlib.SPEC, "EventTrace.cfg"), env={"TRACE": tf})
+    got = {m[1]: set(m[3]["#set"]) for m in res.tagged("MISMATCH")}
+    want = {1: {"result"}, 2: {"range", "result"}, 3: {"panic"}, 4: {"result"}, 6: {"result"}}
+    print("selftest EventTrace corrupted events flagged:", got == want, got)
+    ok &= got == want
+    # --- DaySweep: swap two records / drop one / corrupt one field
+    rf = os.path.join(wd, "r.txt")
+    open(rf, "w").write("11330 11360\n")
+    df = os.path.join(wd, "d.ndjson")
+    vlib.vh(["daysweep", "--out", df, "--ranges", "@" + rf, "--groups", "cal,dtr"])
+    lines = open(df).read().splitlines()
+    cfg = os.path.join(vlib.SPEC, "DaySweep.cfg")
+
+    def ds(ls):
+        with open(df, "w") as fh:
+            fh.write("\n".join(ls) + "\n")
+        return vlib.tlc("DaySweep.tla", cfg, env={"TRACE": df})
+    r0 = ds(lines)
+    base_ok = bool(r0.tagged("ACCEPTED")) and not r0.tagged("MISMATCH")
+    sw = list(lines)
+    sw[5], sw[6] = sw[6], sw[5]
+    r1 = ds(sw)
+    swapped_flagged = bool(r1.tagged("MISMATCH")) or bool(r1.tagged("REJECTED"))
+    rec = json.loads(lines[10])
+    rec["dow"] = rec["dow"] % 7 + 1
+    r2 = ds(lines[:10] + [json.dumps(rec)] + lines[11:])
+    field_flagged = any(["dow", 0] in m[3]["#set"] for m in r2.tagged("MISMATCH"))
+    print("selftest DaySweep: clean accepted:", base_ok, " swapped records flagged:", swapped_flagged, " corrupted weekday flagged:", field_flagged)
+    ok &= base_ok and swapped_flagged and field_flagged
+    shutil.rmtree(wd, ignore_errors=True)
+    return 0 if ok else 1
 
 
 def replay(path):
